@@ -4,12 +4,21 @@
 //!   record       direction B(i): writers + reader + iterator threads, interval-stamped trace
 //!   crash        direction B(ii): child processes abort()ing right before / after commit()
 //!   crash-child  (internal) the process that dies
+//!   gate         directed: deferred enlargement behind another thread's iterator
+//!   nested       directed: one thread holds an iterator, looks items up, writes and opens more transactions while
+//!                the map crosses 90 % (KV!Begin under one's own iterator, KV!NoHolderParked / GateLive)
+//!   squeeze      probe (never a verdict): a batch below 10 % of the map opened by a thread that holds its own iterator on
+//!                a map that is more than 90 % full (no enlargement can take place before it)
+//!   inflight     directed: a single-key read stopped in the middle of its value while a writer needs the
+//!                enlargement (KV!ReadBegin .. ReadEnd, KV!CountAgrees / NoRemapUnderTxn)
 use grin_core::global;
 use grin_core::ser::{self, Readable, Reader, Writeable, Writer};
 use grin_store::{Batch, DatabaseIterator, Error as SErr, Store};
 use rand::rngs::StdRng;
 use rand::{Rng, SeedableRng};
 use serde_json::{json, Value};
+use std::cell::RefCell;
+use std::collections::HashMap;
 use std::panic::{catch_unwind, AssertUnwindSafe};
 use std::sync::atomic::{AtomicBool, AtomicU64, Ordering::SeqCst};
 use std::sync::{mpsc, Arc, Mutex};
@@ -29,8 +38,11 @@ fn main() {
 		Some("crash-child") => crash_child(&args),
 		Some("race") => race(&args),
 		Some("gate") => gate(&args),
+		Some("nested") => nested(&args),
+		Some("inflight") => inflight(&args),
+		Some("squeeze") => squeeze(&args),
 		_ => {
-			eprintln!("kv replay|record|crash|race|gate");
+			eprintln!("kv replay|record|crash|race|gate|nested|inflight");
 			2
 		}
 	};
@@ -85,6 +97,90 @@ fn decode_blob(b: &[u8]) -> Result<u64, String> {
 		return Err(format!("corrupt value v={} len={} got {} bytes", v, len, b.len()));
 	}
 	Ok(v)
+}
+
+// ------------------------------------------------------------------------------------------
+// A single-key read caught in flight (KV!ReadBegin .. ReadEnd): Store::get_ser of a value whose Readable stops
+// half way through its bytes - inside the read transaction, the second half still unread in the memory map -
+// until it is released.
+
+enum ReaderMsg {
+	/// the read transaction is open and half of the value has been read
+	InFlight,
+	Done(Result<Option<u64>, String>),
+}
+
+thread_local! {
+	static PAUSE: RefCell<Option<(mpsc::Sender<ReaderMsg>, mpsc::Receiver<()>)>> = RefCell::new(None);
+}
+
+/// Same bytes as Blob; pauses once (when its thread has armed PAUSE) between the two halves of the value.
+struct PausedBlob {
+	v: u64,
+}
+
+impl Readable for PausedBlob {
+	fn read<R: Reader>(r: &mut R) -> Result<PausedBlob, ser::Error> {
+		let v = r.read_u64()?;
+		let len = r.read_u64()? as usize;
+		let h = len / 2;
+		let mut bytes = r.read_fixed_bytes(h)?;
+		if let Some((tx, rx)) = PAUSE.with(|p| p.borrow_mut().take()) {
+			let _ = tx.send(ReaderMsg::InFlight);
+			let _ = rx.recv();
+		}
+		bytes.extend(r.read_fixed_bytes(len - h)?);
+		if bytes != fill(v, len) {
+			return Err(ser::Error::CorruptedData);
+		}
+		Ok(PausedBlob { v })
+	}
+}
+
+struct Inflight {
+	release: mpsc::Sender<()>,
+	msgs: mpsc::Receiver<ReaderMsg>,
+	/// the call came back without pausing (absent key: nothing to deserialize)
+	early: Option<Result<Option<u64>, String>>,
+}
+
+/// Starts store.get_ser(s, key) on a thread of its own and returns once it is in flight (or already over).
+fn start_paused_read(store: Arc<Store>, s: Option<u8>, key: u64, wait: Duration) -> Result<Inflight, String> {
+	let (mtx, mrx) = mpsc::channel();
+	let (rtx, rrx) = mpsc::channel();
+	let mtx2 = mtx.clone();
+	std::thread::spawn(move || {
+		PAUSE.with(|p| *p.borrow_mut() = Some((mtx2, rrx)));
+		let r = catch_unwind(AssertUnwindSafe(|| {
+			store.get_ser::<PausedBlob>(s, &kb(key), None).map(|x| x.map(|b| b.v)).map_err(errs)
+		}));
+		PAUSE.with(|p| *p.borrow_mut() = None);
+		drop(store);
+		let _ = mtx.send(ReaderMsg::Done(r.unwrap_or_else(|_| Err("panic in Store::get_ser".to_string()))));
+	});
+	match mrx.recv_timeout(wait) {
+		Ok(ReaderMsg::InFlight) => Ok(Inflight { release: rtx, msgs: mrx, early: None }),
+		Ok(ReaderMsg::Done(r)) => Ok(Inflight { release: rtx, msgs: mrx, early: Some(r) }),
+		Err(_) => Err("Store::get_ser neither paused nor returned".to_string()),
+	}
+}
+
+impl Inflight {
+	fn in_flight(&self) -> bool {
+		self.early.is_none()
+	}
+	/// Lets the read go on; None if it does not come back within `wait`.
+	fn finish(self, wait: Duration) -> Option<Result<Option<u64>, String>> {
+		if let Some(r) = self.early {
+			return Some(r);
+		}
+		let _ = self.release.send(());
+		match self.msgs.recv_timeout(wait) {
+			Ok(ReaderMsg::Done(r)) => Some(r),
+			Ok(ReaderMsg::InFlight) => Some(Err("paused twice".to_string())),
+			Err(_) => None,
+		}
+	}
 }
 
 fn kb(k: u64) -> [u8; 2] {
@@ -291,6 +387,9 @@ struct Replay<'a> {
 	tx: mpsc::Sender<OutCmd>,
 	rx: mpsc::Receiver<OutRes>,
 	counts: &'a mut std::collections::BTreeMap<String, u64>,
+	/// the store of the current epoch (reads in flight run on threads of their own)
+	store: Option<Arc<Store>>,
+	inflight: HashMap<u64, Inflight>,
 }
 
 fn expected_lists(cfg: &Cfg, v: &Value) -> Vec<Vec<(u64, u64)>> {
@@ -423,6 +522,33 @@ impl<'a> Replay<'a> {
 			}
 			"OutIterClose" => {
 				let _ = self.out(OutCmd::IterClose(r));
+			}
+			"ReadBegin" => {
+				let t = a["t"].as_u64().unwrap_or(2);
+				let sp = a["sp"].as_u64().unwrap();
+				let key = a["key"].as_u64().unwrap();
+				let store = self.store.clone().expect("store of the epoch");
+				match start_paused_read(store, self.cfg.space(sp), key, Duration::from_secs(3600)) {
+					Ok(f) => {
+						self.checks += 1;
+						self.inflight.insert(t, f);
+					}
+					Err(e) => self.miss(i, "ReadBegin", sp, key, json!("in flight"), json!({ "error": e })),
+				}
+			}
+			"ReadEnd" => {
+				let t = a["t"].as_u64().unwrap_or(2);
+				let sp = a["sp"].as_u64().unwrap_or(0);
+				let key = a["key"].as_u64().unwrap_or(0);
+				let e = a["res"].as_u64().unwrap_or(0);
+				let exp = if e == 0 { None } else { Some(e) };
+				match self.inflight.remove(&t) {
+					Some(f) => match f.finish(Duration::from_secs(3600)) {
+						Some(x) => self.cmp(i, "ReadEnd", sp, key, exp, x),
+						None => self.miss(i, "ReadEnd", sp, key, exp.j(), json!("no answer")),
+					},
+					None => self.miss(i, "ReadEnd", sp, key, exp.j(), json!("no read in flight")),
+				}
 			}
 			_ => return false,
 		}
@@ -584,13 +710,15 @@ fn run_behaviour(
 		tx,
 		rx,
 		counts,
+		store: None,
+		inflight: HashMap::new(),
 	};
 	let mut pending: Option<usize> = None;
 	let mut last_checked = 0usize;
 	// one epoch per process life: a Crash step closes everything without committing and reopens
 	loop {
 		let store = match open_store(dir) {
-			Ok(s) => s,
+			Ok(s) => Arc::new(s),
 			Err(e) => {
 				rs.mism.push(json!({"step": rs.pos, "op": "open", "observed": errs(e)}));
 				break;
@@ -600,11 +728,17 @@ fn run_behaviour(
 		let (rtx, rrx) = mpsc::channel();
 		rs.tx = ctx;
 		rs.rx = rrx;
+		rs.store = Some(store.clone());
 		let crashed = std::thread::scope(|s| {
-			let st = &store;
+			let st: &Store = &store;
 			s.spawn(move || out_thread(st, cfg, crx, rtx));
-			let r = catch_unwind(AssertUnwindSafe(|| run_top(&store, &mut rs, pending)));
+			let r = catch_unwind(AssertUnwindSafe(|| run_top(st, &mut rs, pending)));
 			let _ = rs.tx.send(OutCmd::Quit);
+			// the epoch ends (Crash / end of the behaviour): reads still in flight are let go, their results dropped
+			for (_, f) in rs.inflight.drain() {
+				let _ = f.finish(Duration::from_secs(3600));
+			}
+			rs.store = None;
 			match r {
 				Ok(r) => r,
 				Err(p) => std::panic::resume_unwind(p),
@@ -1852,4 +1986,587 @@ fn gate(args: &Args) -> i32 {
 		}
 	}
 	finish(json!({"reached": false, "class": "never_needed_resize", "pages": data_pages(&dir)}))
+}
+
+// ------------------------------------------------------------------------------------------
+// Directed scenarios for the per-thread side of the resize gate (KV!Entered / Left / CanEnter).
+// Both record what they see (store iterators held across other calls, reads in flight) for spec/trace/KVTrace.tla.
+
+/// What the scenario's threads are doing, for the supervisor (the command's main thread): a store call that does
+/// not come back is DATA (a hang verdict on stdout, exit 0) - the stuck threads are never joined.
+struct Sup {
+	t0: Instant,
+	op: AtomicU64,
+	t_ms: AtomicU64,
+	round: AtomicU64,
+	kind: AtomicU64,
+}
+const S_OPS: [&str; 12] = [
+	"idle", "grow_batch", "iter", "iter_next", "exists", "get_ser", "batch", "put", "commit", "iter_second", "iter_close",
+	"helper_batch",
+];
+const S_IDLE: u64 = 0;
+const S_GROW: u64 = 1;
+const S_ITER: u64 = 2;
+const S_NEXT: u64 = 3;
+const S_EXISTS: u64 = 4;
+const S_GET: u64 = 5;
+const S_BATCH: u64 = 6;
+const S_PUT: u64 = 7;
+const S_COMMIT: u64 = 8;
+const S_ITER2: u64 = 9;
+const S_CLOSE: u64 = 10;
+const S_HELPER: u64 = 11;
+const K_PLAIN: u64 = 0;
+const K_OWN: u64 = 1;
+const K_OTHER: u64 = 2;
+fn kind_name(k: u64) -> &'static str {
+	match k {
+		K_OWN => "own_batch",
+		K_OTHER => "other_threads_batch",
+		_ => "no_resize_due",
+	}
+}
+
+impl Sup {
+	fn new() -> Sup {
+		Sup {
+			t0: Instant::now(),
+			op: AtomicU64::new(S_IDLE),
+			t_ms: AtomicU64::new(0),
+			round: AtomicU64::new(0),
+			kind: AtomicU64::new(K_PLAIN),
+		}
+	}
+	fn beat(&self, op: u64) {
+		self.op.store(op, SeqCst);
+		self.t_ms.store(self.t0.elapsed().as_millis() as u64, SeqCst);
+	}
+	fn stuck_ms(&self) -> u64 {
+		(self.t0.elapsed().as_millis() as u64).saturating_sub(self.t_ms.load(SeqCst))
+	}
+}
+
+fn emit_and_exit(v: Value) -> ! {
+	println!("{}", v);
+	use std::io::Write;
+	let _ = std::io::stdout().flush();
+	// threads may be stuck inside the store: never join, never unwind through them
+	std::process::exit(0);
+}
+
+/// (space, key) of the n-th cell: spaces alternate, keys ascend
+fn cell_of(c: u64) -> (u64, u64) {
+	(1 + c % 2, 1 + c / 2)
+}
+
+/// would needs_resize() ask for an enlargement now? (file pages = last page number + 1)
+fn resize_due(dir: &str, data_file: &str) -> bool {
+	let map = map_region(data_file).map(|m| m.1).unwrap_or(0);
+	map > 0 && (data_pages(dir).saturating_sub(1) * 4096) as f32 / map as f32 > 0.9
+}
+
+/// One model thread of a scenario: store calls with their trace events.
+struct Scn {
+	store: Arc<Store>,
+	sup: Arc<Sup>,
+	cfg: Cfg,
+	ev: Vec<Value>,
+	commits: u64,
+	vid: u64,
+}
+
+impl Scn {
+	/// Begin, Put, Commit of thread `t`
+	fn put_commit(&mut self, op: u64, t: u64, sp: u64, key: u64, len: usize) -> Result<(), String> {
+		self.sup.beat(op);
+		let mut b = self.store.batch().map_err(|e| format!("batch:{}", errs(e)))?;
+		self.ev.push(json!({"k": "Begin", "t": t}));
+		self.sup.beat(S_PUT);
+		self.vid += 1;
+		let v = self.vid;
+		b.put_ser(self.cfg.space(sp), &kb(key), &Blob { v, len }).map_err(|e| format!("put:{}", errs(e)))?;
+		self.ev.push(json!({"k": "Put", "sp": sp, "key": key, "val": v}));
+		self.sup.beat(S_COMMIT);
+		b.commit().map_err(|e| format!("commit:{}", errs(e)))?;
+		self.commits += 1;
+		self.ev.push(json!({"k": "Commit", "idx": self.commits}));
+		self.sup.beat(S_IDLE);
+		Ok(())
+	}
+	fn exists(&mut self, t: u64, sp: u64, key: u64) -> Result<bool, String> {
+		self.sup.beat(S_EXISTS);
+		let r = self.store.exists(self.cfg.space(sp), &kb(key)).map_err(|e| format!("exists:{}", errs(e)))?;
+		self.ev.push(json!({"k": "OutExists", "t": t, "sp": sp, "key": key, "res": r, "lo": self.commits, "hi": self.commits}));
+		self.sup.beat(S_IDLE);
+		Ok(r)
+	}
+	fn get(&mut self, t: u64, sp: u64, key: u64) -> Result<Option<u64>, String> {
+		self.sup.beat(S_GET);
+		let r = self
+			.store
+			.get_ser::<Blob>(self.cfg.space(sp), &kb(key), None)
+			.map(|x| x.map(|b| b.v))
+			.map_err(|e| format!("get_ser:{}", errs(e)))?;
+		self.ev.push(json!({"k": "OutGet", "t": t, "sp": sp, "key": key, "res": r.unwrap_or(0), "lo": self.commits, "hi": self.commits}));
+		self.sup.beat(S_IDLE);
+		Ok(r)
+	}
+	fn iter_open<'a>(&mut self, op: u64, t: u64, r: u64, sp: u64) -> Result<It<'a>, String> {
+		self.sup.beat(op);
+		let it = self.store.iter(self.cfg.space(sp), deser_pair as DeserFn).map_err(|e| format!("iter:{}", errs(e)))?;
+		self.ev.push(json!({"k": "OutIterOpen", "t": t, "r": r, "sp": sp}));
+		self.sup.beat(S_IDLE);
+		Ok(it)
+	}
+	fn iter_next(&mut self, r: u64, it: &mut It) -> Result<Option<(u64, u64)>, String> {
+		self.sup.beat(S_NEXT);
+		let x = conv_item(it.next()).map_err(|e| format!("iter_next:{}", e))?;
+		self.ev.push(json!({"k": "OutIterNext", "r": r, "res": x.j()}));
+		self.sup.beat(S_IDLE);
+		Ok(x)
+	}
+	fn iter_close(&mut self, r: u64, it: It) {
+		self.sup.beat(S_CLOSE);
+		drop(it);
+		self.ev.push(json!({"k": "OutIterClose", "r": r}));
+		self.sup.beat(S_IDLE);
+	}
+	/// everything committed, read now and again after closing and reopening; the trace ends there
+	fn finish_trace(mut self, dir: &str) -> Result<Vec<Value>, String> {
+		let sh = Shared::new(dir);
+		let mut tail = vec![];
+		observe_all(&self.store, &self.cfg, self.commits, &mut tail, &sh);
+		let cfg = self.cfg;
+		let commits = self.commits;
+		let mut all = std::mem::replace(&mut self.ev, vec![]);
+		drop(self);
+		all.extend(tail);
+		all.push(json!({"k": "Crash"}));
+		let mut tail2 = vec![];
+		match open_store(dir) {
+			Ok(s2) => observe_all(&s2, &cfg, commits, &mut tail2, &sh),
+			Err(e) => sh.error("reopen", errs(e)),
+		}
+		all.extend(tail2);
+		if let Some(e) = sh.errors.lock().unwrap().first() {
+			return Err(format!("final:{}", e));
+		}
+		annotate_keep(&mut all);
+		Ok(all)
+	}
+}
+
+/// `nested --dir D --out TRACE [--seed N] [--hang S] [--max-rounds N]`
+/// ONE thread (model thread 1) does what chain code does with an index: it holds a store iterator, looks the item
+/// up (Store::exists / get_ser: a second transaction opened and closed under the iterator), writes (Store::batch()
+/// under the iterator) and opens more transactions - round after round while the data grows past 90 % of the map.
+/// In the first round in which an enlargement is due it is the thread's OWN batch() that asks for it (it must be let
+/// through the gate: it holds the iterator the enlargement waits for); at the next crossing ANOTHER thread's batch()
+/// asks and parks, and the iterator's thread then opens one more transaction of every kind. KV: Begin(t) with
+/// mark[t] > 0, NoHolderParked, GateLive. The order of the two kinds depends on the seed.
+fn nested(args: &Args) -> i32 {
+	let dir = args.req("dir").to_string();
+	let outp = args.req("out").to_string();
+	let seed = args.u64("seed", 1);
+	let hang_s = args.u64("hang", 15);
+	let max_rounds = args.u64("max-rounds", 160);
+	let _ = std::fs::remove_dir_all(&dir);
+	let store = Arc::new(open_store(&dir).expect("open"));
+	let cdir = std::fs::canonicalize(&dir).map(|p| p.to_string_lossy().to_string()).unwrap_or(dir.clone());
+	let data_file = format!("{}/multi_lmdb/data.mdb", cdir);
+	let sup = Arc::new(Sup::new());
+	sup.beat(S_IDLE);
+	let (done_tx, done_rx) = mpsc::channel::<Result<(Vec<Value>, Value), String>>();
+	{
+		let (store, sup, dir, data_file) = (store.clone(), sup.clone(), dir.clone(), data_file.clone());
+		std::thread::spawn(move || {
+			let r = catch_unwind(AssertUnwindSafe(|| nested_worker(store, sup, &dir, &data_file, seed, max_rounds)));
+			let _ = done_tx.send(r.unwrap_or_else(|_| Err("panic:panic in code under test".to_string())));
+		});
+	}
+	drop(store);
+	loop {
+		match done_rx.recv_timeout(Duration::from_millis(50)) {
+			Ok(Ok((trace, mut summary))) => {
+				let mut w = NdWriter::create(&outp);
+				for e in &trace {
+					w.put(e);
+				}
+				summary["events"] = json!(w.n);
+				w.finish();
+				let _ = std::fs::remove_dir_all(&dir);
+				emit_and_exit(summary);
+			}
+			Ok(Err(e)) => {
+				let (op, msg) = match e.find(':') {
+					Some(i) => (e[..i].to_string(), e[i + 1..].to_string()),
+					None => ("scenario".to_string(), e.clone()),
+				};
+				let class = if op == "harness" {
+					"harness"
+				} else if msg.contains("MAP_FULL") || msg.contains("MapFull") {
+					"mapfull"
+				} else if op == "panic" {
+					"panic"
+				} else {
+					"error"
+				};
+				emit_and_exit(json!({"class": class, "op": op, "error": msg, "round": sup.round.load(SeqCst),
+					"kind": kind_name(sup.kind.load(SeqCst))}));
+			}
+			Err(mpsc::RecvTimeoutError::Disconnected) => emit_and_exit(json!({"class": "harness", "error": "worker vanished"})),
+			Err(mpsc::RecvTimeoutError::Timeout) => {
+				if sup.op.load(SeqCst) != S_IDLE && sup.stuck_ms() >= hang_s * 1000 {
+					emit_and_exit(json!({"class": "hang", "in": S_OPS[sup.op.load(SeqCst) as usize], "round": sup.round.load(SeqCst),
+						"kind": kind_name(sup.kind.load(SeqCst)), "bound_s": hang_s, "data_pages": data_pages(&dir),
+						"map_bytes": map_region(&data_file).map(|m| m.1)}));
+				}
+			}
+		}
+	}
+}
+
+fn nested_worker(store: Arc<Store>, sup: Arc<Sup>, dir: &str, data_file: &str, seed: u64, max_rounds: u64) -> Result<(Vec<Value>, Value), String> {
+	let cfg = Cfg { ns: 2, nk: 100, defdb: false };
+	let mut scn = Scn { store: store.clone(), sup: sup.clone(), cfg, ev: vec![], commits: 0, vid: 0 };
+	// the "index": three small entries at the front of space 1 (the items the iterator walks over and looks up)
+	for key in 1..=3 {
+		scn.put_commit(S_GROW, 1, 1, key, 100)?;
+	}
+	let mut cell = 6u64; // cells 0..5 = keys 1..3 of both spaces
+	let order = if seed % 2 == 1 { [K_OWN, K_OTHER] } else { [K_OTHER, K_OWN] };
+	let mut crossings = 0usize;
+	let mut due_rounds: Vec<Value> = vec![];
+	let mut rounds = 0;
+	let mut extra = 0;
+	for round in 0..max_rounds {
+		rounds = round + 1;
+		sup.round.store(round, SeqCst);
+		sup.kind.store(K_PLAIN, SeqCst);
+		// the data grows (no other transaction open on this thread)
+		let (gsp, gkey) = cell_of(cell);
+		cell += 1;
+		if gkey > cfg.nk {
+			return Err("harness:out of cells".to_string());
+		}
+		scn.put_commit(S_GROW, 1, gsp, gkey, 32 * 1024)?;
+		let due = resize_due(dir, data_file);
+		let kind = if due && crossings < 2 { order[crossings] } else { K_PLAIN };
+		sup.kind.store(kind, SeqCst);
+		let map_before = map_region(data_file).map(|m| m.1).unwrap_or(0);
+		// (1) the iterator, held to the end of the round; (2) its first item looked up: transactions opened and
+		// closed under the iterator
+		let mut it = scn.iter_open(S_ITER, 1, 1, 1)?;
+		let first = scn.iter_next(1, &mut it)?;
+		let k1 = first.map(|p| p.0).unwrap_or(1);
+		scn.exists(1, 1, k1)?;
+		scn.get(1, 1, k1)?;
+		scn.get(1, gsp, gkey)?;
+		let pending;
+		if kind == K_OTHER {
+			// another thread (model thread 2) asks for a batch: an enlargement is due, it has to wait for our iterator
+			let (got_tx, got_rx) = mpsc::channel::<()>();
+			let (go_tx, go_rx) = mpsc::channel::<()>();
+			let (res_tx, res_rx) = mpsc::channel::<Result<(), String>>();
+			let hstore = store.clone();
+			let hv = scn.vid + 1;
+			scn.vid += 1;
+			let hs = cfg.space(2);
+			std::thread::spawn(move || {
+				let r = (|| -> Result<(), String> {
+					let mut b = hstore.batch().map_err(|e| format!("batch:{}", errs(e)))?;
+					let _ = got_tx.send(());
+					let _ = go_rx.recv();
+					b.put_ser(hs, &kb(2), &Blob { v: hv, len: 100 }).map_err(|e| format!("put:{}", errs(e)))?;
+					b.commit().map_err(|e| format!("commit:{}", errs(e)))
+				})();
+				drop(hstore);
+				let _ = res_tx.send(r);
+			});
+			let admitted = got_rx.recv_timeout(Duration::from_millis(400)).is_ok();
+			pending = !admitted;
+			// (4) one more transaction of every kind on the thread that holds the iterator
+			scn.exists(1, 1, k1)?;
+			scn.get(1, 1, 2)?;
+			let mut it2 = scn.iter_open(S_ITER2, 1, 2, 2)?;
+			scn.iter_next(2, &mut it2)?;
+			scn.iter_close(2, it2);
+			scn.iter_next(1, &mut it)?;
+			scn.iter_close(1, it);
+			// the other thread's batch goes on once the iterator is closed (and the map has been enlarged)
+			sup.beat(S_HELPER);
+			if !admitted {
+				let _ = got_rx.recv();
+			}
+			scn.ev.push(json!({"k": "Begin", "t": 2}));
+			let _ = go_tx.send(());
+			match res_rx.recv() {
+				Ok(Ok(())) => {}
+				Ok(Err(e)) => return Err(format!("helper_{}", e)),
+				Err(_) => return Err("harness:helper vanished".to_string()),
+			}
+			scn.ev.push(json!({"k": "Put", "sp": 2, "key": 2, "val": hv}));
+			scn.commits += 1;
+			scn.ev.push(json!({"k": "Commit", "idx": scn.commits}));
+			sup.beat(S_IDLE);
+		} else {
+			// this thread's own batch under its iterator: if an enlargement is due it can only be requested here
+			// (it has to wait for the iterator) and the batch is let through the gate
+			scn.put_commit(S_BATCH, 1, 1, 2, 100)?;
+			// is an enlargement pending now? a transaction of a thread that holds nothing has to wait then
+			let (ptx, prx) = mpsc::channel::<()>();
+			let pstore = store.clone();
+			std::thread::spawn(move || {
+				let _ = pstore.exists(Some(b'P'), &kb(1));
+				drop(pstore);
+				let _ = ptx.send(());
+			});
+			pending = prx.recv_timeout(Duration::from_millis(if due { 150 } else { 20 })).is_err();
+			// (4) one more transaction of every kind
+			scn.exists(1, 1, k1)?;
+			scn.get(1, 1, 2)?;
+			let mut it2 = scn.iter_open(S_ITER2, 1, 2, 2)?;
+			scn.iter_next(2, &mut it2)?;
+			scn.iter_close(2, it2);
+			scn.iter_next(1, &mut it)?;
+			scn.iter_close(1, it);
+			if pending {
+				sup.beat(S_HELPER);
+				let _ = prx.recv();
+				sup.beat(S_IDLE);
+			}
+		}
+		if due && kind != K_PLAIN {
+			// the enlargement that was waiting for the iterator is carried out by a helper thread of the store
+			let t = Instant::now();
+			while map_region(data_file).map(|m| m.1).unwrap_or(0) == map_before && t.elapsed() < Duration::from_secs(5) {
+				std::thread::sleep(Duration::from_millis(10));
+			}
+			due_rounds.push(json!({"round": round, "kind": kind_name(kind), "pending_seen": pending, "map_before": map_before,
+				"map_after": map_region(data_file).map(|m| m.1).unwrap_or(0), "data_pages": data_pages(dir)}));
+			crossings += 1;
+		}
+		if crossings >= 2 {
+			extra += 1;
+			if extra > 2 {
+				break;
+			}
+		}
+	}
+	let exercised = due_rounds.len() >= 2 && due_rounds.iter().all(|d| d["pending_seen"] == true && d["map_after"].as_u64() > d["map_before"].as_u64());
+	let commits = scn.commits;
+	let map_final = map_region(data_file).map(|m| m.1);
+	drop(store);
+	let trace = scn.finish_trace(dir)?;
+	Ok((
+		trace,
+		json!({"class": if exercised { "ok" } else { "not_exercised" }, "rounds": rounds, "commits": commits, "due_rounds": due_rounds,
+			"order": [kind_name(order[0]), kind_name(order[1])], "map_final": map_final}),
+	))
+}
+
+/// `inflight --dir D --out TRACE [--hang S] [--commits N]`
+/// A reader thread (model thread 2) is stopped in the middle of Store::get_ser - its read transaction open, half of
+/// the value still unread in the memory map - while a writer thread (model thread 1) commits more than the map can
+/// hold. The enlargement has to wait for that read (KV!CountAgrees: EVERY open transaction is counted; KV!Resize
+/// only at cnt = 0; NoRemapUnderTxn): the writer stalls in batch(), the mapping of the data file stays where it is;
+/// once the read is released it yields exactly the committed value, the map is enlarged and the writer finishes.
+fn inflight(args: &Args) -> i32 {
+	let dir = args.req("dir").to_string();
+	let outp = args.req("out").to_string();
+	let hang_s = args.u64("hang", 15);
+	let ncommits = args.u64("commits", 40);
+	let _ = std::fs::remove_dir_all(&dir);
+	let store = Arc::new(open_store(&dir).expect("open"));
+	let cdir = std::fs::canonicalize(&dir).map(|p| p.to_string_lossy().to_string()).unwrap_or(dir.clone());
+	let data_file = format!("{}/multi_lmdb/data.mdb", cdir);
+	let cfg = Cfg { ns: 2, nk: 100, defdb: false };
+	let sup = Arc::new(Sup::new());
+	let mut scn = Scn { store: store.clone(), sup: sup.clone(), cfg, ev: vec![], commits: 0, vid: 0 };
+	let fail = |class: &str, e: String| -> ! { emit_and_exit(json!({"class": class, "error": e})) };
+	// the value the reader will be caught in (two halves of 32 KiB), then data up to about 80 % of the map
+	if let Err(e) = scn.put_commit(S_GROW, 1, 1, 1, 64 * 1024) {
+		fail(if e.contains("MAP_FULL") { "mapfull" } else { "error" }, e);
+	}
+	let target_v = scn.vid;
+	let mut cell = 2u64;
+	while data_pages(&dir) < 200 {
+		let (sp, key) = cell_of(cell);
+		cell += 1;
+		if let Err(e) = scn.put_commit(S_GROW, 1, sp, key, 32 * 1024) {
+			fail(if e.contains("MAP_FULL") { "mapfull" } else { "error" }, e);
+		}
+	}
+	// KV!ReadBegin(2, 1, 1)
+	let read = match start_paused_read(store.clone(), cfg.space(1), 1, Duration::from_secs(hang_s)) {
+		Ok(r) if r.in_flight() => r,
+		Ok(_) => fail("harness", "the read came back without pausing".to_string()),
+		Err(e) => emit_and_exit(json!({"class": "hang", "phase": "read_start", "error": e, "bound_s": hang_s})),
+	};
+	scn.ev.push(json!({"k": "ReadBegin", "t": 2, "sp": 1, "key": 1}));
+	let map0 = map_region(&data_file);
+	let commits_at_read = scn.commits;
+	// the writer: 32 KiB per commit, more than the map can hold
+	let log = Arc::new(Mutex::new((scn.ev.split_off(0), scn.commits, scn.vid)));
+	let progress = Arc::new(AtomicU64::new(0));
+	let (wres_tx, wres_rx) = mpsc::channel::<Result<(), String>>();
+	{
+		let (wstore, log, progress) = (store.clone(), log.clone(), progress.clone());
+		let first_cell = cell;
+		std::thread::spawn(move || {
+			let r = catch_unwind(AssertUnwindSafe(|| -> Result<(), String> {
+				for i in 0..ncommits {
+					let (sp, key) = cell_of(first_cell + i);
+					let mut b = wstore.batch().map_err(|e| format!("batch:{}", errs(e)))?;
+					let mut g = log.lock().unwrap();
+					g.0.push(json!({"k": "Begin", "t": 1}));
+					g.2 += 1;
+					let v = g.2;
+					b.put_ser(cfg.space(sp), &kb(key), &Blob { v, len: 32 * 1024 }).map_err(|e| format!("put:{}", errs(e)))?;
+					g.0.push(json!({"k": "Put", "sp": sp, "key": key, "val": v}));
+					b.commit().map_err(|e| format!("commit:{}", errs(e)))?;
+					g.1 += 1;
+					let idx = g.1;
+					g.0.push(json!({"k": "Commit", "idx": idx}));
+					drop(g);
+					progress.store(i + 1, SeqCst);
+				}
+				Ok(())
+			}));
+			drop(wstore);
+			let _ = wres_tx.send(r.unwrap_or_else(|_| Err("panic:panic in code under test".to_string())));
+		});
+	}
+	// watch: does the mapping change under the read? does the writer stall?
+	let t0 = Instant::now();
+	let mut last = (0u64, Instant::now());
+	let mut writer_res: Option<Result<(), String>> = None;
+	let stalled = loop {
+		std::thread::sleep(Duration::from_millis(5));
+		let m = map_region(&data_file);
+		if m != map0 {
+			// KV!NoRemapUnderTxn violated: say so BEFORE the read touches the rest of its value
+			let done = progress.load(SeqCst);
+			let first = json!({"class": "remapped", "map_before": map0.map(|x| [x.0, x.1]), "map_after": m.map(|x| [x.0, x.1]),
+				"writer_commits_done": done, "data_pages": data_pages(&dir), "read_released": false});
+			println!("{}", first);
+			use std::io::Write;
+			let _ = std::io::stdout().flush();
+			let after = match read.finish(Duration::from_secs(hang_s)) {
+				Some(Ok(Some(v))) if v == target_v => "committed_value".to_string(),
+				Some(Ok(x)) => format!("wrong_value:{:?}", x),
+				Some(Err(e)) => format!("error:{}", e),
+				None => "no_answer".to_string(),
+			};
+			let mut second = first.clone();
+			second["read_released"] = json!(true);
+			second["read_after_remap"] = json!(after);
+			emit_and_exit(second);
+		}
+		if let Ok(r) = wres_rx.try_recv() {
+			writer_res = Some(r);
+			break false;
+		}
+		let p = progress.load(SeqCst);
+		if p != last.0 {
+			last = (p, Instant::now());
+		} else if last.1.elapsed() >= Duration::from_millis(1500) && resize_due(&dir, &data_file) {
+			break true;
+		}
+		if t0.elapsed() >= Duration::from_secs(4 * hang_s) {
+			emit_and_exit(json!({"class": "inconclusive", "error": "the writer neither stalled nor finished", "writer_commits_done": p,
+				"data_pages": data_pages(&dir)}));
+		}
+	};
+	if !stalled {
+		// the writer came to an end with the read still in flight and the mapping unchanged
+		let _ = read.finish(Duration::from_secs(hang_s));
+		match writer_res {
+			Some(Err(e)) => {
+				let class = if e.contains("MAP_FULL") || e.contains("MapFull") { "mapfull" } else { "error" };
+				emit_and_exit(json!({"class": class, "phase": "writer_under_inflight_read", "error": e, "writer_commits_done": progress.load(SeqCst)}))
+			}
+			_ => emit_and_exit(json!({"class": "not_exercised", "error": "all commits fitted into the map", "data_pages": data_pages(&dir)})),
+		}
+	}
+	let stalled_at = progress.load(SeqCst);
+	let pages_at_stall = data_pages(&dir);
+	// KV!ReadEnd(2): the rest of the value is read now
+	let t_rel = Instant::now();
+	let got = read.finish(Duration::from_secs(hang_s));
+	log.lock().unwrap().0.push(json!({"k": "ReadEnd", "t": 2, "res": match &got { Some(Ok(Some(v))) => *v, _ => 0 }}));
+	match got {
+		Some(Ok(Some(v))) if v == target_v => {}
+		Some(Ok(x)) => emit_and_exit(json!({"class": "wrong_value", "expected": target_v, "observed": x, "stalled_at": stalled_at})),
+		Some(Err(e)) => emit_and_exit(json!({"class": "read_error", "error": e, "stalled_at": stalled_at})),
+		None => emit_and_exit(json!({"class": "hang", "phase": "read_after_release", "bound_s": hang_s, "stalled_at": stalled_at})),
+	}
+	// the enlargement takes place, the writer goes on to the end
+	let wres = match wres_rx.recv_timeout(Duration::from_secs(2 * hang_s)) {
+		Ok(r) => r,
+		Err(_) => emit_and_exit(json!({"class": "hang", "phase": "writer_after_read_released", "bound_s": 2 * hang_s, "stalled_at": stalled_at,
+			"writer_commits_done": progress.load(SeqCst), "map_bytes": map_region(&data_file).map(|m| m.1)})),
+	};
+	if let Err(e) = wres {
+		let class = if e.contains("MAP_FULL") || e.contains("MapFull") { "mapfull" } else { "error" };
+		emit_and_exit(json!({"class": class, "phase": "writer_after_read_released", "error": e, "stalled_at": stalled_at}));
+	}
+	let resumed_ms = t_rel.elapsed().as_millis() as u64;
+	let map1 = map_region(&data_file);
+	{
+		let mut g = log.lock().unwrap();
+		scn.ev = g.0.split_off(0);
+		scn.commits = g.1;
+		scn.vid = g.2;
+	}
+	let commits = scn.commits;
+	drop(store);
+	let trace = match scn.finish_trace(&dir) {
+		Ok(t) => t,
+		Err(e) => emit_and_exit(json!({"class": "error", "phase": "final_observation", "error": e})),
+	};
+	let mut w = NdWriter::create(&outp);
+	for e in &trace {
+		w.put(e);
+	}
+	let n = w.n;
+	w.finish();
+	let _ = std::fs::remove_dir_all(&dir);
+	emit_and_exit(json!({"class": if map1.map(|m| m.1) > map0.map(|m| m.1) { "ok" } else { "not_exercised" },
+		"commits_before_read": commits_at_read, "writer_stalled_after": stalled_at, "writer_commits": ncommits, "pages_at_stall": pages_at_stall,
+		"map_during_read": map0.map(|m| m.1), "map_final": map1.map(|m| m.1), "writer_finished_ms_after_release": resumed_ms,
+		"commits": commits, "events": n, "read_value_ok": true}))
+}
+
+/// `squeeze --dir D --mode own_iterator|control [--bytes N]`
+/// Probe, not part of the property (its quantifier has the iterators on OTHER threads; KV!squeezed): the thread that
+/// opens the batch holds a store iterator itself, so the enlargement that is due cannot take place before the batch.
+fn squeeze(args: &Args) -> i32 {
+	let dir = args.req("dir").to_string();
+	let own = args.req("mode") == "own_iterator";
+	let bytes = args.u64("bytes", 96 * 1024) as usize;
+	let _ = std::fs::remove_dir_all(&dir);
+	let store = Arc::new(open_store(&dir).expect("open"));
+	let cdir = std::fs::canonicalize(&dir).map(|p| p.to_string_lossy().to_string()).unwrap_or(dir.clone());
+	let data_file = format!("{}/multi_lmdb/data.mdb", cdir);
+	let mut key = 1u64;
+	while !resize_due(&dir, &data_file) {
+		if let Err(e) = one_put(&store, key, 8 * 1024) {
+			emit_and_exit(json!({"mode": args.req("mode"), "class": "fill_error", "error": e}));
+		}
+		key += 1;
+	}
+	let pages = data_pages(&dir);
+	let map0 = map_region(&data_file).map(|m| m.1);
+	let held = if own { store.iter(Some(b'P'), deser_pair as DeserFn).ok() } else { None };
+	let r = (|| -> Result<(), String> {
+		let mut b = store.batch().map_err(|e| format!("batch:{}", errs(e)))?;
+		b.put_ser(Some(b'Q'), &kb(1), &Blob { v: 1, len: bytes - 16 }).map_err(|e| format!("put:{}", errs(e)))?;
+		b.commit().map_err(|e| format!("commit:{}", errs(e)))
+	})();
+	let map1 = map_region(&data_file).map(|m| m.1);
+	drop(held);
+	emit_and_exit(json!({"mode": args.req("mode"), "class": if r.is_ok() { "ok" } else { "failed" }, "error": r.err(), "pages_before": pages,
+		"map_before": map0, "map_at_commit": map1, "batch_bytes": bytes}))
 }
